@@ -318,6 +318,20 @@ func (it *c9interp) binop(x *ssa.BinOp, a, b *c9v) *c9v {
 			return res(a.s == b.s, "")
 		}
 	}
+	if a.k == "int" && b.k == "int" {
+		switch x.Op {
+		case token.LSS:
+			return c9bool(a.n < b.n, "")
+		case token.LEQ:
+			return c9bool(a.n <= b.n, "")
+		case token.GTR:
+			return c9bool(a.n > b.n, "")
+		case token.GEQ:
+			return c9bool(a.n >= b.n, "")
+		case token.SUB:
+			return &c9v{k: "int", n: a.n - b.n}
+		}
+	}
 	return c9unk("operator " + x.Op.String() + " on " + a.k + "," + b.k)
 }
 
@@ -361,7 +375,18 @@ func (it *c9interp) callClosure(fn *ssa.Function, args []*c9v, free []*c9v) *c9v
 				if st, ok := x.Type().Underlying().(*types.Pointer).Elem().Underlying().(*types.Struct); ok && st.NumFields() > 0 {
 					it.cells[x] = &c9v{k: "struct", fields: map[string]*c9v{}}
 				}
+				if _, ok := x.Type().Underlying().(*types.Pointer).Elem().Underlying().(*types.Array); ok {
+					it.cells[x] = &c9v{k: "struct", fields: map[string]*c9v{}}
+				}
 				fr.env[x] = &c9v{k: "addr", alloc: x}
+			case *ssa.IndexAddr:
+				// element of a local fixed-size array at a known index (a short list of keys to try in order)
+				base, idx := it.eval(fr, x.X), it.eval(fr, x.Index)
+				if _, isArr := x.X.Type().Underlying().(*types.Pointer); isArr && base.k == "addr" && base.alloc != nil && base.s == "" && idx.k == "int" {
+					fr.env[x] = &c9v{k: "addr", alloc: base.alloc, s: fmt.Sprintf("[%d]", idx.n)}
+				} else {
+					fr.env[x] = c9unk("element address")
+				}
 			case *ssa.FieldAddr:
 				base := it.eval(fr, x.X)
 				fname := x.X.Type().Underlying().(*types.Pointer).Elem().Underlying().(*types.Struct).Field(x.Field).Name()
